@@ -44,6 +44,12 @@ def info(prop):
                         "restraint list; VCs over arrays + quantifiers discharged by z3. _split_list: all list lengths for each number of parts 1..40. "),
         "rule": "deductive: one obligation per (function, clause, path)",
     }
+    from . import d10_protein_vc as D
+    h = D.deductive_info()
+    base["functions"] = base["functions"] + h["functions"]
+    base["stubs"] = base["stubs"] + h["stubs"]
+    base["assumptions"] = base["assumptions"] + h["assumptions"]
+    base["explanation"] = base["explanation"] + h["explanation"]
     return _merge.merged_info(base, b10_routing)
 
 
@@ -287,7 +293,9 @@ def task_split_list(seed, kmax=40):
 
 
 def tasks(prop, tier, seed):
+    from . import d10_protein_vc as D
     t = [("remove_hydrogens/pyvc", task_remove_hydrogens, (seed,), 900.0), ("_split_list/pyvc", task_split_list, (seed,), 900.0)]
+    t += list(D.deductive_tasks(prop, tier, seed))
     t += b10_routing.bounded_tasks(prop, tier, seed)
     return t
 
@@ -295,6 +303,20 @@ def tasks(prop, tier, seed):
 def replay(prop, cex):
     if str(cex.get("fn", "")).startswith("b10:"):
         return b10_routing.replay(prop, cex)
+    if cex.get("fn") == "d10:vc":
+        # a failed obligation of guess_protein_restrains: look for failing residue layouts in the bounded scope of the real function
+        for name, fn, args, _lim in [t for t in b10_routing.bounded_tasks(prop, "quick", 0) if t[0].startswith("b10/protein")][:4]:
+            try:
+                obs = fn(*args)
+            except Exception:
+                continue
+            for o in obs:
+                if o.get("status") == "refuted" and o.get("kind") != "guard" and o.get("cex"):
+                    r = b10_routing.replay(prop, o["cex"])
+                    if r and r.get("reproduced"):
+                        r["note"] = f"failed obligation {cex.get('clause') or cex.get('obligation')} manifests on the real guess_protein_restrains"
+                        return r
+        return {"reproduced": False, "inputs": cex, "note": "no failing residue layout found in the bounded scope"}
     import gaddlemaps._alignment as A
     if cex.get("fn") == "split":
         for k in [cex["k"]] + list(range(1, 9)):
